@@ -53,21 +53,19 @@ def obligations(facts):
                and (v["init"].get("ptypes") or [""])[0] in ("unsigned long", "unsigned int")]
         if not vec:
             # delegating writer: must forward the header parameter to a callee returning the vector
-            fwd = [False]
-            calls = [0]
+            calls = []
 
             def v(n):
                 if n.get("k") == "Call" and (n.get("t") or "").startswith("std::vector<unsigned char"):
-                    calls[0] += 1
-                    if any(mentions(a, hid) for a in n.get("args", [])):
-                        fwd[0] = True
+                    calls.append((n, any(mentions(a, hid) for a in n.get("args", []))))
             walk(fn["body"], v)
-            if calls[0] == 0:
+            if not calls:
                 out.append(ob("header", base + ":form", fn["pat"], "unrecognised", "byte writer neither constructs a sized result vector nor delegates", fn["qname"]))
-            elif fwd[0]:
-                out.append(ob("header", base + ":forward", fn["pat"], "discharged", "delegates and forwards header_size_bytes", fn["qname"]))
-            else:
-                out.append(ob("header", base + ":forward", fn["pat"], "violated", "delegating byte writer does not forward its header_size_bytes parameter", fn["qname"]))
+            for j, (c, ok) in enumerate(calls):
+                if ok:
+                    out.append(ob("header", base + ":forward#%d" % j, c.get("loc", fn["pat"]), "discharged", "delegates to %s and forwards header_size_bytes" % c.get("cname"), fn["qname"]))
+                else:
+                    out.append(ob("header", base + ":forward#%d" % j, c.get("loc", fn["pat"]), "violated", "delegating byte writer calls %s without forwarding its header_size_bytes parameter: the returned image has no room for the caller's header" % c.get("cname"), fn["qname"]))
             continue
         v0 = vec[0]
         size = v0["init"]["args"][0]
